@@ -132,6 +132,17 @@ def job_detect(res, nh, pos, nframes, absent=False):
             cx = sum(hc[k].conjugate() * win[k] for k in range(nh)) / (rmsh * nh); pw = sum(abs(v) ** 2 for v in win) / nh
             worst = max(worst, abs(cx) ** 2 / (pw + 2.2e-16))
         if worst > 0.35 ** 2: res.notes.append(f'{label}: the preamble-free test stream correlates too well with this preamble ({math.sqrt(worst):.2f}); skipped'); return
+    if absent and nh != 7:
+        # longer preambles: the branch conditions of the FFT-based correlator become polynomials in A that z3 does not decide within the feasibility budget (spurious 'feasible' detection paths);
+        # the amplitude is therefore enumerated over five decades (ground obligations) instead of being symbolic - the score is scale-invariant up to the eps guard
+        for Av in (1e-3, 0.05, 1.0, 37.0, 1e3):
+            m = Machine(mod, max_steps=100_000_000); out = m.alloc_doubles([0.0] * (rl * 4), 'out'); flp = m.alloc_ints([0], 32, 'fl')
+            try: cnt = m.call('@h_detect', [m.alloc_doubles(h, 'h'), nh, 0.5, m.alloc_doubles(build(Av), 'x'), nframes, out, rl, flp])
+            except (Throw, UB) as e: res.absorb(m); res.inc(f'{label}: {type(e).__name__} at amplitude {Av}'); continue
+            res.absorb(m); sol = z3.Solver(); sol.add(z3.Not(z3.BoolVal(cnt == 0)))
+            if timed_check(sol, res) == z3.unsat: res.ob(True, 'ground', f'{label}: amplitude {Av}: no detection')
+            else: confirm(res, PID, HARNESS, 'h_detect', [('pf64', h), ('i32', nh), ('f64', 0.5), ('pf64', build(Av)), ('i32', nframes), ('pf64', [0.0] * (rl * 4)), ('i32', rl), ('pi32', [0])], 'i32', 'detect', ORACLES, 'detector:absent', f'{label}: {cnt} detection(s) without a preamble at amplitude {Av}', extra={'L': L, 'pos': pos, 'absent': True})
+        return
     def setup(m):
         m.assume(z3.And(A >= z3.RealVal('1/1000'), A <= 1000)); out = m.alloc_doubles([0.0] * (rl * 4), 'out'); fl = m.alloc_ints([0], 32, 'fl')
         return [m.alloc_doubles(h, 'h'), nh, 0.5, m.alloc_doubles(build(fsym('A')), 'x'), nframes, out, rl, fl], out
